@@ -7,6 +7,8 @@ pub mod c07;
 pub mod c08;
 pub mod c09;
 pub mod c12;
+pub mod c13;
+pub mod c14;
 pub mod c19;
 
 pub fn run(ctx: &Ctx, st: &mut Stats) -> bool {
@@ -16,6 +18,8 @@ pub fn run(ctx: &Ctx, st: &mut Stats) -> bool {
         "C08" => c08::run(ctx, st),
         "C09" => c09::run(ctx, st),
         "C12" => c12::run(ctx, st),
+        "C13" => c13::run(ctx, st),
+        "C14" => c14::run(ctx, st),
         "C19" => c19::run(ctx, st),
         _ => return false,
     }
@@ -29,6 +33,8 @@ pub fn replay(prop: &str, case: &Value, st: &mut Stats) -> bool {
         "C08" => c08::replay(case, st),
         "C09" => c09::replay(case, st),
         "C12" => c12::replay(case, st),
+        "C13" => c13::replay(case, st),
+        "C14" => c14::replay(case, st),
         "C19" => c19::replay(case, st),
         _ => false,
     }
